@@ -99,6 +99,7 @@ def run_task(task: dict) -> dict:
     stats = core.Stats()
     log = core.Log()
     violations = []
+    vcount: dict = {}
     samples = []
     distinct = set()
     enc_ids: dict = {}
@@ -154,7 +155,8 @@ def run_task(task: dict) -> dict:
                         bad_here += 1
                         stats.inc("violating_cases")
                         log.add("viol", qn, k_inst, k, kind, out)
-                        if len(violations) < 6 and bad_here <= 2:
+                        vcount[(out, kind)] = vcount.get((out, kind), 0) + 1
+                        if vcount[(out, kind)] <= 2:
                             violations.append({
                                 "signature": out,
                                 "run_seed": run_seed,
